@@ -108,6 +108,22 @@ def gen_cases(rng, ctx):
         impl = line("c13_creds", [[cid[0]], list(text.encode())] + probes)
         cases.append(Case(impl, model, kind=kind, nontrivial=True, meta={"doc_ok": ok, "text": text}))
 
+    # the real binary (endpoint/src/main.rs) reads the credentials file from disk: the configured pair is accepted, near misses are not
+    # (values without ':' in the user name - Basic credentials split at the first colon - and without line breaks)
+    for i in range(24 if thorough else 6):
+        u = gen_value(rng).replace(":", "_").replace("\n", " ").strip() or "user"
+        pw = gen_value(rng).replace("\n", " ") or "pw"
+        wrong = pw + "x"
+        text = "[[client]]\nusername = %s\npassword = %s\n" % (toml_spelling(u, rng), toml_spelling(pw, rng))
+        try:
+            doc = tomllib.loads(text)
+            ok = doc["client"][0]["username"] == u and doc["client"][0]["password"] == pw
+        except Exception:
+            ok = False
+        if not ok:
+            continue
+        l = line("bin_run", [[2, 0, 0], list(u.encode()), list(pw.encode()), list(wrong.encode()), list(text.encode())])
+        cases.append(Case(l, None, kind="process:credentials-file", nontrivial=True, meta={"bin": True, "u": u, "p": pw, "text": text}))
     # corpus: the repaired reader
     creds_case('[[client]]\nusername = \'lit"eral\'\npassword = "p\\\\a\\"ss "\n', [b64('lit"eral:p\\a"ss '), b64("'literal':p\\\\a\\ss")], "corpus:quotes-escapes")
     creds_case('[[client]]\npassword = "x"\n', [], "corpus:missing-key")
@@ -208,10 +224,25 @@ def gen_cases(rng, ctx):
     return cases
 
 
+NEEDS_ENDPOINT_BIN = True
+RETRY_PREFIX = "process:"
+
+
 def judge(case, impl, model, spec, ctx):
     if impl == "999":
         return [("violation", "the endpoint panicked while loading %s" % case.kind)]
     out = []
+    if case.meta and case.meta.get("bin"):
+        if impl == "996":
+            ctx.setdefault("skipped_env", []).append(case.kind)
+            return []
+        s1, s2, s3, s4, code, lines, hits = untok(impl.split()[0])
+        what = "the endpoint binary started on the credentials file %r" % case.meta["text"]
+        if s1 != 200:
+            return [("violation", "%s: the configured pair (%r, %r) is answered %d" % (what, case.meta["u"], case.meta["p"], s1))]
+        if (s2, s3, s4) != (407, 407, 407):
+            return [("violation", "%s: wrong password / swapped pair / no credentials answered %d / %d / %d instead of 407" % (what, s2, s3, s4))]
+        return []
     if case.kind == "wizard-roundtrip":
         t = impl.split()
         u, p = list(case.meta["u"].encode()), list(case.meta["p"].encode())
